@@ -91,3 +91,66 @@ class FakeBinaryTherm:
         self.log.append(("getTracerDiffusivity", float(np.atleast_1d(T)[0])))
         x = np.atleast_1d(np.asarray(x, dtype=float))
         return np.squeeze(self.D * np.ones((len(x), 2)))
+
+
+class FakeMultiTherm:
+    """Scripted ternary backend (two solutes) for the multicomponent path of PrecipitateModel.
+
+    dG(x, T)   = K * w.(x - xe(T))                       chemical driving force
+    growth     = kawin's own _growthRateOutputFromCurvature with a scripted CurvatureOutput
+                 (mc, dc, gba, beta, c_eq_alpha = xe(T), c_eq_beta = xb); growth(R) = mc/R * (dG - g(R)),
+                 so the radius at which growth changes sign is the radius whose Gibbs-Thomson energy equals dG.
+    Failures: "growth" -> getGrowthAndInterfacialComposition returns None; "drivingForce" -> (None, None)."""
+    numElements = 3
+
+    def __init__(self, K=1e5, xe0=(0.004, 0.006), se=(0.0, 0.0), T0=1000.0, xb=(0.2, 0.1), w=(1.0, 0.5), mc=3e-21, dc=(1e-7, 5e-8),
+                 beta=1e-18, per_phase=None, faults=None):
+        self.K, self.xe0, self.se, self.T0, self.xb, self.w, self.mc, self.dc, self.beta = K, np.array(xe0), np.array(se), T0, np.array(xb), np.array(w), mc, np.array(dc), beta
+        self.per_phase = per_phase or {}
+        self.faults = faults or FaultPlan()
+        self.log = []
+        self.last_curv = {}
+
+    def _pp(self, phase, name):
+        v = self.per_phase.get(phase, {}).get(name, getattr(self, name))
+        return np.array(v) if isinstance(v, (tuple, list)) else v
+
+    def xe(self, T, phase=None):
+        return self._pp(phase, "xe0") + self._pp(phase, "se") * (float(T) - self.T0)
+
+    def clearCache(self):
+        self.log.append(("clearCache", None))
+
+    def getDrivingForce(self, x, T, precPhase=None, removeCache=False, **kw):
+        from kawin.thermo.utils import _process_xT_arrays
+        x, T = _process_xT_arrays(np.asarray(x, dtype=float), np.asarray(T, dtype=float), False)
+        self.log.append(("getDrivingForce", float(T[0])))
+        if self.faults.hit("drivingForce"):
+            return None, None
+        dg = np.array([self._pp(precPhase, "K") * float(np.dot(self._pp(precPhase, "w"), xi - self.xe(Ti, precPhase))) for xi, Ti in zip(x, T)])
+        xb = np.array([self._pp(precPhase, "xb") for _ in dg])
+        return np.squeeze(dg), np.squeeze(xb)
+
+    def curvatureFactor(self, x, T, precPhase=None, removeCache=False, searchDir=None, computeSearchDir=False):
+        from kawin.thermo.MultiTherm import CurvatureOutput
+        return CurvatureOutput(dc=self._pp(precPhase, "dc"), mc=self._pp(precPhase, "mc"), gba=0.5 * np.eye(2), beta=self._pp(precPhase, "beta"),
+                               c_eq_alpha=self.xe(T, precPhase), c_eq_beta=self._pp(precPhase, "xb"))
+
+    def getGrowthAndInterfacialComposition(self, x, T, dG, R, gExtra, precPhase=None, removeCache=False, searchDir=None):
+        from kawin.thermo.MultiTherm import _growthRateOutputFromCurvature
+        from kawin.thermo.utils import _process_x
+        self.log.append(("getGrowthAndInterfacialComposition", float(T)))
+        if self.faults.hit("growth"):
+            return None
+        c = self.curvatureFactor(x, T, precPhase)
+        return _growthRateOutputFromCurvature(_process_x(x, self.numElements), dG, R, gExtra, c)
+
+    def impingementFactor(self, x, T, precPhase=None, removeCache=False, searchDir=None):
+        self.log.append(("impingementFactor", float(T)))
+        return self._pp(precPhase, "beta")
+
+    def getInterdiffusivity(self, x, T, removeCache=True, phase=None):
+        return 1e-17 * np.eye(2)
+
+    def getTracerDiffusivity(self, x, T, removeCache=True, phase=None):
+        return 1e-17 * np.ones(3)
